@@ -207,6 +207,25 @@ fn gen_sched_eq(rng: &mut Rng, depth: usize) -> Sched {
     }
 }
 
+/// upper bound on the iterations of growing rulesets a schedule text performs (repeat factors multiplied through)
+fn explosive_iters(text: &str) -> usize {
+    fn go(t: &crate::sexp::Sexp) -> usize {
+        use crate::sexp::Sexp;
+        let Sexp::List(v) = t else { return 0 };
+        let head = match v.first() { Some(Sexp::Atom(a)) => a.as_str(), _ => return v.iter().map(go).sum() };
+        let num = |x: &Sexp| match x { Sexp::Atom(a) => a.parse::<usize>().ok(), _ => None };
+        match head {
+            "run" => { let rs = match v.get(1) { Some(Sexp::Atom(a)) if a.parse::<usize>().is_err() && !a.starts_with(':') => a.as_str(), _ => "" };
+                let n = v.iter().skip(1).find_map(num).unwrap_or(1);
+                if ["comm", "fold"].contains(&rs) { 0 } else { n } }
+            "repeat" => v.get(1).and_then(num).unwrap_or(1) * v.iter().skip(2).map(go).sum::<usize>(),
+            "saturate" => v.iter().skip(1).map(go).sum::<usize>() * 1,
+            _ => v.iter().skip(1).map(go).sum(),
+        }
+    }
+    crate::sexp::parse_all(text).map(|ts| ts.iter().map(go).sum()).unwrap_or(0)
+}
+
 fn laws_eqsat(rep: &mut Report, rng: &mut Rng, n: usize) {
     for _ in 0..n {
         let mut base = EGraph::default();
@@ -215,7 +234,9 @@ fn laws_eqsat(rep: &mut Report, rng: &mut Rng, n: usize) {
         let pre = rng.below(3);
         let setup = terms.join("\n") + &format!("\n(run all {pre})\n");
         engine::run(&mut base, &setup);
-        let (s1, s2, law) = law_pair(rng);
+        // bound the number of iterations of the growing rulesets (assoc, dist, all, flat): e-graphs of distributivity +
+        // associativity grow exponentially, a handful of thorough-tier cases otherwise needs tens of GB
+        let (s1, s2, law) = loop { let c = law_pair(rng); if pre + explosive_iters(&c.0).max(explosive_iters(&c.1)) <= 4 { break c; } };
         if std::env::var("VERIF_DEBUG").is_ok() { eprintln!("LAW {law}: setup={setup:?} s1={s1} s2={s2}"); }
         let (mut e1, mut e2) = (base.clone(), base.clone());
         let (o1, o2) = (engine::run(&mut e1, &s1), engine::run(&mut e2, &s2));
